@@ -25,12 +25,18 @@ Oci(lens, decls) ==
             l \in lens, d \in decls, e \in {"none", "repo"}} :
      (c.decl = "sizeminus" => c.len >= 2) /\ (c.decl \in {"none", "sizeonly"} => c.exists = "none")}
 
-QuickConfs == Reg(0..5, 1..2, {-1, 2}, MinsQ, BOOLEAN, Decls, {"else", "repo"}, {"plain", "query"})
+QuickConfs == Reg(0..4, 1..3, {-1, 2}, {<<0, FALSE>>, <<2, TRUE>>}, BOOLEAN, Decls, {"else", "repo"}, {"query"})
               \cup Oci(0..3, Decls)
-ThoroughConfs == Reg(0..7, 1..3, {-1, 2, 4}, MinsT, BOOLEAN, Decls, {"else", "repo"}, {"plain", "query"})
+\* thorough tier, three cuts through the space: all lengths / settings / descriptors with partial
+\* acceptances but no faults (ThoroughConfs), the same up to length 6 with one fault
+\* (Thorough1Confs), and two faults on a smaller space (FaultConfs)
+ThoroughConfs == Reg(0..7, 1..3, {-1, 2, 4}, MinsT, BOOLEAN, Decls, {"else", "repo"}, {"query"})
                  \cup Oci(0..4, Decls)
+Thorough1Confs == Reg(0..6, 1..3, {-1, 2, 4}, MinsT, BOOLEAN, Decls, {"else", "repo"}, {"query"})
+FaultConfs == Reg(0..5, 1..3, {-1, 2}, {<<0, FALSE>>, <<2, TRUE>>}, BOOLEAN, {"none", "right", "wrongdig", "sizeplus"},
+                  {"else"}, {"plain", "query"})
 \* liveness (termination) on a smaller space
-LiveConfs == Reg(0..4, 1..3, {-1, 2}, {<<0, FALSE>>, <<2, TRUE>>}, BOOLEAN, {"none", "right", "wrongdig"}, {"else"}, {"query"})
+LiveConfs == Reg(0..4, 1..3, {-1, 2}, {<<0, FALSE>>, <<2, TRUE>>}, {TRUE}, {"none", "right", "wrongdig"}, {"else"}, {"query"})
 \* S13: a destination that enforces its minimum and nevertheless accepts partially
 S13Confs == {[c EXCEPT !.part = TRUE] : c \in Reg(0..6, {3}, {-1}, {<<2, TRUE>>}, {TRUE}, {"none"}, {"else"}, {"query"})}
 \* the anonymous mount short cut with a descriptor the stream does not match
